@@ -687,7 +687,7 @@ class MaskedArray(ndarray):
             return ndarray.mean(self.data)
         # fork on the mask bits: keeps every statistic a polynomial without ite (much easier for the solver)
         bits = [symx.CTX.decide(m) for m in self.maskcells()]
-        live = [v for v, b in zip(self.cells(), bits) if not b]
+        live = [symx.CTX.fold(v) for v, b in zip(self.cells(), bits) if not b]
         if not live:
             return masked
         return SymNum((z3.Sum(*live) if len(live) > 1 else live[0]) / len(live), 'f', True)
@@ -699,10 +699,9 @@ class MaskedArray(ndarray):
         if mu is masked:
             return masked
         bits = [symx.CTX.decide(m) for m in self.maskcells()]
-        live = [(v - mu.e) * (v - mu.e) for v, b in zip(self.cells(), bits) if not b]
+        live = [(symx.CTX.fold(v) - mu.e) * (symx.CTX.fold(v) - mu.e) for v, b in zip(self.cells(), bits) if not b]
         var = (z3.Sum(*live) if len(live) > 1 else live[0]) / len(live)
-        r = symx.CTX.fresh('sqrt')
-        symx.CTX.define(r, z3.And(r >= 0, r * r == var))
+        r = symx.CTX.sqrt(var)
         return SymNum(r, 'f', True)
 
     def sum(self, axis=None):
